@@ -211,7 +211,8 @@ class LibDriver:
             if back != name:
                 raise CaseViolation(f'{self.label}: get_tag_name({i}) is {back[:60]!r}, expected {name[:60]!r}', accepted=ref[:30])
             ctx.ev()
-        for bad in (-1, n, n + 5, 10 ** 9, -(10 ** 9)):
+        for bad in [-1, n, n + 5, 10 ** 9, -(10 ** 9)] + (list(range(-n - 2, -1)) if n <= 40 else
+                                                                 list(range(-n - 2, -n + 3)) + [-2, -3, -5, -(n // 2)]):   # (negative indices that would address a name from the end)
             try:
                 r = self._by_id(bad)
             except self.tags.TagNotFoundError:
